@@ -1622,7 +1622,9 @@ func (sc *serverConn) processFrame(f Frame) error {
 					})
 				}
 				vhook.Point("http2.capture.settings", &md.HTTP2Frames)
+				md.HTTP2Frames.Lock()
 				md.HTTP2Frames.Settings = settings
+				md.HTTP2Frames.Unlock()
 			}
 		}
 		return sc.processSettings(f)
@@ -1633,6 +1635,7 @@ func (sc *serverConn) processFrame(f Frame) error {
 				headers = append(headers, metadata.HeaderField(h))
 			}
 			vhook.Point("http2.capture.headers", &md.HTTP2Frames)
+			md.HTTP2Frames.Lock()
 			md.HTTP2Frames.Headers = headers
 			if f.HasPriority() {
 				vhook.Point("http2.capture.headersPriority", &md.HTTP2Frames)
@@ -1644,14 +1647,17 @@ func (sc *serverConn) processFrame(f Frame) error {
 						Weight:    f.Priority.Weight,
 					})
 			}
+			md.HTTP2Frames.Unlock()
 		}
 		return sc.processHeaders(f)
 	case *WindowUpdateFrame:
 		if md, ok := metadata.FromContext(sc.baseCtx); ok {
 			vhook.Point("http2.capture.windowUpdate", &md.HTTP2Frames)
+			md.HTTP2Frames.Lock()
 			if md.HTTP2Frames.WindowUpdateIncrement == 0 {
 				md.HTTP2Frames.WindowUpdateIncrement = f.Increment
 			}
+			md.HTTP2Frames.Unlock()
 		}
 		return sc.processWindowUpdate(f)
 	case *PingFrame:
@@ -1663,12 +1669,14 @@ func (sc *serverConn) processFrame(f Frame) error {
 	case *PriorityFrame:
 		if md, ok := metadata.FromContext(sc.baseCtx); ok {
 			vhook.Point("http2.capture.priority", &md.HTTP2Frames)
+			md.HTTP2Frames.Lock()
 			md.HTTP2Frames.Priorities = append(md.HTTP2Frames.Priorities, metadata.Priority{
 				StreamId:  f.StreamID,
 				StreamDep: f.PriorityParam.StreamDep,
 				Exclusive: f.PriorityParam.Exclusive,
 				Weight:    f.PriorityParam.Weight,
 			})
+			md.HTTP2Frames.Unlock()
 		}
 		return sc.processPriority(f)
 	case *GoAwayFrame:
